@@ -14,6 +14,12 @@ Driver for C18.  One request per line, fields separated by `|`, tokens inside a 
         dom = value and type are inside the domain of the theorem `match_eq_spec`,
         fp = trigger of finding F18p (the parser rejects or corrupts this legal sequence type).
 
+  H|<xsd11 0/1>|<base is an inline function 0/1>|<pool: value>|<op>;<op>;…   → `hist=<e>;<e>;…`   (judgement history on function items)
+        op ::= jm <i> <ty> | ji <i> <ty> | jt <i> <ty> | p <i> <n> <0/1>^n     (1 = placeholder `?`)
+        e  ::= `-` for a partial application, else `<model>/<spec>/<q>/<r>` (r = trigger of F18r): model = answer of the model
+        (partial applications typed as the code does), spec = XPath matching with partial applications
+        typed by `partialSig`, q = 1 iff the judged item descends from a non-prefix mask (trigger of F18q)
+
 Token syntax (Polish notation):
   ty    ::= E | L <leaf> <occ> | F <n> <ty>^n <ty> | M <k> <ty> <occ> | A <ty> <occ>
   leaf  ::= item | node | a <idx> | num | l <idx> | anyType | anySimple | K <kind> <nt> | D <nt>
@@ -26,6 +32,7 @@ Token syntax (Polish notation):
 import EPV.Proto
 import EPV.Spec.XPathTypes
 import EPV.Lemmas.SeqTypeSpec
+import EPV.Lemmas.SeqTypeHist
 import EPV.Gen.C18Tables
 open EPV.Proto EPV.SeqType
 
@@ -109,6 +116,15 @@ def parseAll {α : Type} (p : P α) (s : String) : Option α :=
   | some (x, []) => some x
   | _ => none
 
+def pOp : P HOp
+  | "jm" :: ts => do let (i, r) ← pNat ts; let (t, r) ← pTy r; pure (.jMatch i t, r)
+  | "ji" :: ts => do let (i, r) ← pNat ts; let (t, r) ← pTy r; pure (.jInst i t, r)
+  | "jt" :: ts => do let (i, r) ← pNat ts; let (t, r) ← pTy r; pure (.jTreat i t, r)
+  | "p" :: ts => do
+      let (i, r) ← pNat ts; let (n, r) ← pNat r; let (bits, r) ← pRep pNat n r
+      pure (.papp i (bits.map (· != 0)), r)
+  | _ => none
+
 def showRes : Res → String
   | .ok true => "T" | .ok false => "F"
   | .error .XPST0051 => "E:XPST0051" | .error .XPST0003 => "E:XPST0003" | .error .XPDY0050 => "E:XPDY0050"
@@ -135,6 +151,25 @@ def answer (line : String) : String :=
         | .error e => showRes (.error e)
       s!"match={showRes m} inst={showRes i} treat={tr} spec={sp} fd={b01 (trigF18d ty val)} fi={b01 (trigF18i ty val)} dom={b01 (domT ty val)} fp={b01 ty.parserGap}"
     | _, _ => "bad-judgement"
+  | ["H", x, inl, v, opsS] =>
+    match parseAll pValue v, ((opsS.splitOn ";").filter (fun o => (toks o) ≠ [])).mapM (parseAll pOp) with
+    | some pool, some ops =>
+      let xsd11 := x == "1"
+      let res := hRun tables xsd11 pool ops
+      -- walk the history once more for the spec pool and the taint flags
+      let baseArity := match pool with | .func a _ :: _ => a.length | _ => 0
+      let step (st : List Item × List Bool × List String × List HOp) (opr : HOp × Option Res) :
+          List Item × List Bool × List String × List HOp :=
+        let (sp, fl, out, before) := st
+        match opr.1 with
+        | .papp i mask => (sp ++ [(sp.getD i default).partialApplySpec mask], fl ++ [fl.getD i false || !prefixMask mask], out ++ ["-"], before ++ [opr.1])
+        | .jMatch i t | .jInst i t | .jTreat i t =>
+          let m := match opr.2 with | some r => showRes r | none => "?"
+          let s := if specMatch (specTables xsd11) (isRestriction tables) t [sp.getD i default] then "T" else "F"
+          (sp, fl, out ++ [s!"{m}/{s}/{b01 (fl.getD i false)}/{b01 (trigF18r (inl == "1") baseArity before i)}"], before ++ [opr.1])
+      let (_, _, out, _) := (ops.zip res).foldl step (pool, pool.map (fun _ => false), [], [])
+      "hist=" ++ ";".intercalate out
+    | _, _ => "bad-history"
   | _ => "bad-line"
 
 def main : IO Unit := mainLoop answer
